@@ -626,4 +626,95 @@ func main() {
 	genAclTables(repo, out)
 	genTokenTables(repo, out)
 	genRequestSkeleton(repo, out)
+	genPolicyStore(repo, out)
+}
+
+// strExpr translates the string expression that policy.Store.cacheKey returns into Lean over `uuid name : String`:
+// concatenation with +, string literals, `name`, `<x>.UUID`, path.Join / filepath.Join (-> joinClean), and
+// fmt.Sprintf with a format made of %s and literal text.
+func strExpr(e ast.Expr) string {
+	switch x := e.(type) {
+	case *ast.ParenExpr:
+		return strExpr(x.X)
+	case *ast.BasicLit:
+		if x.Kind == token.STRING {
+			s, err := strconv.Unquote(x.Value)
+			if err != nil {
+				die("cacheKey: literal %s", x.Value)
+			}
+			return strconv.Quote(s)
+		}
+	case *ast.Ident:
+		if x.Name == "name" {
+			return "name"
+		}
+	case *ast.SelectorExpr:
+		if x.Sel.Name == "UUID" {
+			return "uuid"
+		}
+	case *ast.BinaryExpr:
+		if x.Op == token.ADD {
+			return "(" + strExpr(x.X) + " ++ " + strExpr(x.Y) + ")"
+		}
+	case *ast.CallExpr:
+		if sel, ok := x.Fun.(*ast.SelectorExpr); ok {
+			if pk, ok := sel.X.(*ast.Ident); ok {
+				switch {
+				case (pk.Name == "path" || pk.Name == "filepath") && sel.Sel.Name == "Join":
+					var args []string
+					for _, a := range x.Args {
+						args = append(args, strExpr(a))
+					}
+					return "(Obao.PolicyKey.joinClean [" + strings.Join(args, ", ") + "])"
+				case pk.Name == "fmt" && sel.Sel.Name == "Sprintf" && len(x.Args) >= 1:
+					bl, ok := x.Args[0].(*ast.BasicLit)
+					if !ok {
+						die("cacheKey: Sprintf format is not a literal")
+					}
+					f, _ := strconv.Unquote(bl.Value)
+					parts := strings.Split(f, "%s")
+					if strings.Contains(strings.Join(parts, ""), "%") || len(parts) != len(x.Args) {
+						die("cacheKey: unsupported Sprintf format %q", f)
+					}
+					out := strconv.Quote(parts[0])
+					for i, a := range x.Args[1:] {
+						out = "((" + out + " ++ " + strExpr(a) + ") ++ " + strconv.Quote(parts[i+1]) + ")"
+					}
+					return out
+				}
+			}
+		}
+	}
+	die("cacheKey: unsupported expression %T", e)
+	return ""
+}
+
+func genPolicyStore(repo, out string) {
+	_, f := parse(filepath.Join(repo, "internal/vault/policy/policy_store.go"))
+	var fd *ast.FuncDecl
+	for _, d := range f.Decls {
+		if x, ok := d.(*ast.FuncDecl); ok && x.Name.Name == "cacheKey" && x.Recv != nil {
+			fd = x
+		}
+	}
+	if fd == nil {
+		die("policy.Store.cacheKey not found")
+	}
+	var ret *ast.ReturnStmt
+	for _, st := range fd.Body.List {
+		switch x := st.(type) {
+		case *ast.ReturnStmt:
+			ret = x
+		default:
+			die("cacheKey: unexpected statement %T", st)
+		}
+	}
+	if ret == nil || len(ret.Results) != 1 {
+		die("cacheKey: expected a single return")
+	}
+	var b strings.Builder
+	b.WriteString(header)
+	b.WriteString("import Obao.Model.PolicyKey\n/-! Translation of `(*Store).cacheKey` of internal/vault/policy/policy_store.go. -/\nnamespace Obao.Gen.PolicyStore\n\n")
+	b.WriteString("/-- the cache key of policy `name` in the namespace with UUID `uuid` -/\ndef cacheKeyGen (uuid name : String) : String :=\n  " + strExpr(ret.Results[0]) + "\n\nend Obao.Gen.PolicyStore\n")
+	write(out, "PolicyStore.lean", b.String())
 }
